@@ -525,4 +525,43 @@ theorem C24_history_demo :
   intro outs
   refine ⟨by decide, by decide, by decide, by decide, by decide, by decide⟩
 
+/-- C24 at the level of one routed message (`publishToSubscribers`: every delivery of an inbound PUBLISH, a will, an
+    inline publish), PARTIAL: on the class where nothing is dropped by this routing (`info.inflightDropped` unchanged:
+    no in-flight limit hit, no packet-id exhaustion — server.go 1096–1110) and no aliased client has a Receive Maximum
+    (`Calm`: no deferral — server.go 1121–1125), for a PUBLISH with a non-empty topic, the receiver's view stays in step
+    with every live client's outbound alias table, and every PUBLISH written is resolvable in the view accumulated up to
+    and including itself.  Outside the class both fail: `C24_F24a_deferred_counterexample`. -/
+theorem C24_alias_sync_deliver_partial (s : Server) (pk : Msg) (pre : List Out)
+    (hty : pk.type = 3) (hne : pk.topic ≠ [])
+    (hcalm : ∀ k, Calm (getObj s k))
+    (hnd : (publishToSubscribers s pk).1.info.inflightDropped = s.info.inflightDropped)
+    (hs : AliasSync s pre) :
+    AliasSync (publishToSubscribers s pk).1 (pre ++ (publishToSubscribers s pk).2) ∧
+    ResOuts pre (publishToSubscribers s pk).2 ∧
+    (∀ k, Calm (getObj (publishToSubscribers s pk).1 k)) :=
+  let h := publishToSubscribers_ah s pk hty hne
+  ⟨(h.sync hnd hcalm pre hs).1, (h.sync hnd hcalm pre hs).2, h.calm hcalm⟩
+
+/-- the same for one delivery (`publishToClientCore`), where the three excluded outcomes are visible: the copy is
+    dropped (counter), deferred (excluded by `Calm`), or the client is not live (then nothing is claimed for it) -/
+theorem C24_alias_sync_core_partial (s : Server) (i : Nat) (sub : Sub) (f : Bool) (pk : Msg) (pre : List Out)
+    (hty : pk.type = 3) (hne : pk.topic ≠ [])
+    (hcalm : ∀ k, Calm (getObj s k))
+    (hnd : (publishToClientCore s i sub f pk).1.info.inflightDropped = s.info.inflightDropped)
+    (hs : AliasSync s pre) :
+    AliasSync (publishToClientCore s i sub f pk).1 (pre ++ (publishToClientCore s i sub f pk).2) ∧
+    ResOuts pre (publishToClientCore s i sub f pk).2 :=
+  (publishToClientCore_ah s i sub f pk hty hne).sync hnd hcalm pre hs
+
+/-- `AliasSync` holds initially (no client has a table) -/
+theorem C24_alias_sync_init (caps : Caps) : AliasSync (init caps) [] := by
+  intro k hl ht
+  exfalso
+  have : (getObj (init caps) k).tam = 0 := by
+    simp only [getObj, init, List.getD_eq_getElem?_getD]
+    cases k with
+    | zero => rfl
+    | succ n => rfl
+  omega
+
 end Mochi.Broker
